@@ -246,13 +246,14 @@ CHECKS = {
             'graph), with dependees/initial/terminal read through the abstraction (dependees_reads, '
             'initial_terminal_spec); graft_preserves_order: when the nested graph is acyclic and shares no node with the outer '
             'graph, a plain node has to come after another one in the grafted graph exactly when it had to before (one '
-            'round of flatten). closure_spec / reduction_spec: on acyclic graphs transitive_closure gives an edge exactly where '
+            'round of flatten); grafts_preserve_order: the same for any sequence of grafts, each under its hypotheses when its turn '
+            'comes, and flatten_round_eq: one round of the model flatten is such a sequence. closure_spec / reduction_spec: on acyclic graphs transitive_closure gives an edge exactly where '
             'there was a path and transitive_reduction keeps exactly the edges that no longer path doubles, both with the same '
             'nodes and the same reachability, with the most / the fewest edges among all graphs of that reachability '
             '(closure_most, reduction_fewest); the recursive visits compute reachability (cloVisit_spec, redVisit_spec, '
             'budget size+1 sufficient by a rank from the topological order) and the in-place loops are handled by an '
             'invariant per processed position; <= and == read the abstraction (le_reads: sub-graph; eq_reads: same nodes and '
-            'same edges). flatten (the loop of grafts over the nested store) and recursive dependencies are in the executable model and checked against DepGraph and against the set-level '
+            'same edges). The recursion of flatten(recurse=True) over nested levels and recursive dependencies are in the executable model and checked against DepGraph and against the set-level '
             'oracle on every run, without theorems.',
             'Trusted: Lean kernel + standard axioms; correspondence sampled (exhaustive <= 4 nodes in thorough); node '
             'identity = Python id(); topological order compared for validity, not equality; graft/flatten only on '
